@@ -264,6 +264,39 @@ fn gen_c07(tier: &str, rng: &mut Rng, emit: &mut dyn FnMut(Op)) {
             emit_ops(emit, &[name.clone(), call_set(lv, &Val::A(vec![pat.into(), pat.into()]))]);
         }
     }
+    // a list that grew by pushes (spare capacity) and is then REPLACED by a longer / shorter / equal one
+    for lv in [3usize, 4, 5, 19, 20, 22] {
+        for (npush, nset) in [(1usize, 2usize), (2, 5), (2, 3), (3, 8), (3, 4), (5, 7), (2, 1), (4, 4), (9, 17)] {
+            let mut calls: Vec<Vec<u8>> = (0..npush).map(|i| call_push(lv, &format!("p{}", i))).collect();
+            calls.push(call_set(lv, &Val::A((0..nset).map(|i| format!("s{}", i)).collect())));
+            emit_ops(emit, &calls);
+            calls.push(call_push(lv, "after"));
+            calls.push(call_set(lv, &Val::A((0..nset + 3).map(|i| format!("t{}", i)).collect())));
+            emit_ops(emit, &calls);
+        }
+    }
+    // the last lines of DESCRIPTION are lines like any other, whatever HOMEPAGE (or any other
+    // variable) holds — the +DESC trailer pkgsrc appends is DATA here
+    for url in ["https://docs.rs/pkgsrc/", "x"] {
+        for descr in [vec!["A test description", "", "Homepage:", url], vec!["", "Homepage:", url], vec!["a", "b", "", "Homepage:", url, ""],
+            vec!["a", "Homepage:", url], vec!["a", "", "Homepage:", "other"], vec![url], vec!["a", url]] {
+            let mut asg = assignment(rng, true);
+            asg.retain(|(v, _)| *v != 5 && *v != 9);
+            asg.push((5, Val::A(descr.iter().map(|x| x.to_string()).collect())));
+            asg.push((9, Val::S(url.to_string())));
+            asg.sort_by_key(|(v, _)| *v);
+            emit_ops(emit, &canonical_calls(&asg));
+            emit(Op::s("summary.parse", &[&print_asg(&asg)]));
+            // every other single-line variable holding the same text as the last DESCRIPTION line
+            for other in [2usize, 7, 10, 16] {
+                let mut a2 = asg.clone();
+                a2.retain(|(v, _)| *v != other);
+                a2.push((other, Val::S(descr[descr.len() - 1].to_string())));
+                a2.sort_by_key(|(v, _)| *v);
+                emit(Op::s("summary.parse", &[&print_asg(&a2)]));
+            }
+        }
+    }
     // every variable alone, set and (for arrays) pushed: both name tables, all 23 rows
     for v in 0..23 {
         let val = match KINDS[v] {
@@ -578,6 +611,16 @@ fn gen_c09(tier: &str, rng: &mut Rng, emit: &mut dyn FnMut(Op)) {
         let dup = "BUILD_DATE=d\nCATEGORIES=c\nCOMMENT=x\nCONFLICTS=foo-[0-9]*\nCONFLICTS=foo-[0-9]*\nDESCRIPTION=x\nDESCRIPTION=x\nMACHINE_ARCH=x\nOPSYS=x\nOS_VERSION=x\nPKGNAME=foo-2.0\nPKGPATH=a/b\nPKGTOOLS_VERSION=1\nPROVIDES=/lib/a.so\nPROVIDES=/lib/a.so\nREQUIRES=/lib/c.so\nREQUIRES=/lib/d.so\nREQUIRES=/lib/c.so\nSIZE_PKG=1\nSUPERSEDES=foo<2.1\nSUPERSEDES={foo,bar}-2.0\n\n";
         let two = format!("{}{}", dup, dup);
         partitions(rng, two.as_bytes(), false, emit);
+    }
+    // values that look like something another module normalises are text: a PKGPATH spelled from
+    // the pkgsrc root, a DESCRIPTION that ends in the +DESC trailer repeating HOMEPAGE
+    {
+        let e1 = "BUILD_DATE=d\nCATEGORIES=c\nCOMMENT=x\nDESCRIPTION=A tool\nDESCRIPTION=\nDESCRIPTION=Homepage:\nDESCRIPTION=https://example.org/\nHOMEPAGE=https://example.org/\nMACHINE_ARCH=x\nOPSYS=x\nOS_VERSION=x\nPKGNAME=a-1\nPKGPATH=../../pkgtools/testpkg\nPKGTOOLS_VERSION=1\nPREV_PKGPATH=./a//b/\nSIZE_PKG=1\n\n";
+        let e2 = "BUILD_DATE=d\nCATEGORIES=c\nCOMMENT=x\nDESCRIPTION=x\nMACHINE_ARCH=x\nOPSYS=x\nOS_VERSION=x\nPKGNAME=b-1\nPKGPATH=pkgtools/../pkgtools/b\nPKGTOOLS_VERSION=1\nSIZE_PKG=1\n\n";
+        let both = format!("{}{}", e1, e2);
+        partitions(rng, both.as_bytes(), false, emit);
+        emit(Op::s("summary.parse", &[&e1[..e1.len() - 1]]));
+        emit(Op::s("summary.parse", &[&e2[..e2.len() - 1]]));
     }
     // a tiny hand-made stream with cuts inside é, €, 𐀀 and inside the separator
     let small = "BUILD_DATE=é\nCATEGORIES=€\nCOMMENT=𐀀\nDESCRIPTION=é\nMACHINE_ARCH=x\nOPSYS=x\nOS_VERSION=x\nPKGNAME=a-1\nPKGPATH=a/b\nPKGTOOLS_VERSION=1\nSIZE_PKG=1\n\n";
